@@ -52,7 +52,7 @@ def gen_cases(tier, seed, shard, nshards):
                    'store_pool': rnd.choice([None, None, None, 2]), 'relay_pool': rnd.choice([None, None, None, 2]),
                    'gate_p': rnd.choice([0.0, 0.25]),
                    'bounce_none_p': rnd.choice([0, 0, 0.3]), 'headers_only': rnd.random() < 0.25,
-                   'sep_bounce_queue': rnd.random() < 0.25,
+                   'sep_bounce_queue': rnd.choice([False, False, False, False, False, 'relay', 'relay', 'store-only']),
                    'body': rnd.choice([None, b'caf\xc3\xa9 \xff\xfe 8-bit body\r\n.\r\nline\r\n', b'']),
                    'ndom': rnd.choice([1, 3]), 'steps': rnd.choice([20, 30])}
             yield {'cfg': cfg, 'seed': rnd.randrange(1 << 40)}
@@ -83,6 +83,8 @@ def _nontrivial(lab, H):
 def _classify(lab, H, kind, m, d):
     be = lab.cfg.get('backend')
     crash = L.crash_tag(lab)
+    if kind == 'bounce-not-handed-to-configured-bounce-queue':
+        return 'bounce-enqueued-on-delivery-queue-although-separate-bounce-queue-configured'
     if m is not None and C.outran_enqueue(lab, H, m):
         return 'self-announcement-outran-enqueue/%s' % be
     if C.pool_cycle_deadlock(lab):
